@@ -69,8 +69,18 @@ def flag_sets(ctx, s, fn, var):
 
 
 def dup_tested(facts, k, c):
-    """a dominating fact  (flags & c) != c   (the duplicate test came out 'not yet seen')"""
+    """a dominating fact  (flags & c) != c  or  (flags & c) == 0  (the duplicate test came out 'not yet seen')"""
     for f in facts:
+        if f[0] in ("eqc", "eq"):
+            v = f[1]
+            other = f[2]
+            oc = other[1] if isinstance(other, tuple) and other[0] == "const" else other
+            if v[0] == "bin" and v[1] == "BitAnd" and oc == 0:
+                a, b = v[2], v[3]
+                m = b if b[0] == "const" else a
+                fl = a if b[0] == "const" else b
+                if m[0] == "const" and m[1] == c and fl[0] == "phi" and fl[2] == ("local", k):
+                    return True
         if f[0] in ("nec", "ne"):
             v = f[1]
             other = f[2]
